@@ -25,7 +25,7 @@ out = ["# Seeded changes: result of the property's quick check with the change a
        "Produced by `bin/mutants` (scratch worktree of /repo HEAD + patch.diff, `symgo check <property> quick`); the logs are",
        "in `seeded/results/` and the last column names the run a row comes from (later runs replace earlier ones).",
        "exit 1 = VIOLATION reported after native reproduction, exit 0 = nothing reported, exit 2 = inconclusive.",
-       "DESIGN.md 9.6 - 9.8 say which assertion catches which change and explain the changes that are not reported.", "",
+       "DESIGN.md 9.6 - 9.9 say which assertion catches which change and explain the changes that are not reported.", "",
        "| change | checked property | exit | first reproduced assertion (harness.label.n) | run |", "|---|---|---|---|---|"]
 for key in sorted(rows):
     p, rc, v, run = rows[key]
